@@ -207,6 +207,17 @@ def check_unit(spec_path, do_twins=True, keep=True):
                     auto_consts.append(name)
                     added = True
                     break
+        # ... and to module-level type aliases (`type Pointer = u32;`)
+        for name in sorted(set(re.findall(r"cannot find type `([A-Za-z_][A-Za-z0-9_]*)` in this scope", r["stderr"]))):
+            if name in auto_consts:
+                continue
+            for it in u["items"]:
+                c = rsx.find_type_alias(REPO, it["relpath"], name)
+                if c:
+                    extra += c + "\n"
+                    auto_consts.append(name)
+                    added = True
+                    break
         # a lifted block that refers to a local of its enclosing function which is not a declared parameter (a local a
         # change introduced): copy the immutable `let` that defines it in front of the block
         for d in parse_diags(r["stderr"]):
